@@ -51,7 +51,6 @@ theorem head_of_snoc {Nm'' : List HTree} {kf kl : HTree} {Nm' : List HTree} (h :
     injection h with h1 _
     exact ⟨N ++ kl :: R, by rw [h1]⟩
 
-set_option maxHeartbeats 400000 in
 /-- xot's consolidation steps after `remove_element` are the specification's three pair merges. -/
 theorem steps_specP {f1 : Forest} {p : Nat} {v : Value} {l Nm r : List HTree} {first last : Nat}
     (s1 : SiteAt f1 p v (l ++ Nm ++ r))
